@@ -102,6 +102,10 @@ Judge(par, ts, rank, A, q) ==
                mo    == Walk(par, ts, rank, I, E, topo, rev, q.since, q.until, q.max)
            IN  << IF q.g # <<>> /\ exact /\ q.max = 0 /\ SeqSet(q.g[1]) # F THEN "SpecVsGit"
                   ELSE IF q.g # <<>> /\ topo /\ ~ TopoOK(par, IF rev THEN Reverse(q.g[1]) ELSE q.g[1]) THEN "SpecVsGit"
+                  \* date order is unambiguous when the timestamps in sight are pairwise different: newest
+                  \* first from a priority queue; with excludes only compared for monotone clocks
+                  ELSE IF q.g # <<>> /\ ~ topo /\ plain /\ (E = {} \/ mono)
+                          /\ (\A x, y \in S : x # y => ts[x] # ts[y]) /\ q.r # q.g[1] THEN "WalkAgreesWithGit"
                   ELSE IF ~ NoDup(q.r) THEN "WalkOnce"
                   ELSE IF ~ (R \subseteq Reach(A, I)) THEN "WalkReachable"
                   ELSE IF E = {} /\ plain /\ R # Reach(A, I) THEN "WalkComplete"
